@@ -1,0 +1,14 @@
+//go:build verif
+
+// Contracts for package csv, read by the verification-condition generator in /verif/govc.
+// This file contains comments only; it is compiled only with -tags verif and adds no code.
+
+package csv
+
+/*@
+// The callback of CSVDatabase honours the parser's callback protocol: on an error the record is nil and must
+// not be touched; the error stops the export and is handed back.
+func CSVDatabase$1
+  props C08 C09 C10
+  refines parser.StopOnErr
+@*/
